@@ -19,13 +19,14 @@ func init() {
 // ---- context roles --------------------------------------------------------------------
 
 type ctxFacts struct {
-	w        *World
-	ctxType  *types.Named
-	mutators map[*ssa.Function]bool // methods of context that update its maps
-	lookups  map[*ssa.Function]bool // methods returning (T, bool) from a map lookup
-	clone    *ssa.Function
-	scopeQ   map[*ssa.Function]bool // scope-stack queries taking a scope argument
-	globalQ  *ssa.Function          // "current scope is the program scope"
+	w         *World
+	ctxType   *types.Named
+	mutators  map[*ssa.Function]bool // methods of context that update its maps
+	cloneLike map[*ssa.Function]bool // methods that return an updated clone of the receiver
+	lookups   map[*ssa.Function]bool // methods returning (T, bool) from a map lookup
+	clone     *ssa.Function
+	scopeQ    map[*ssa.Function]bool // scope-stack queries taking a scope argument
+	globalQ   *ssa.Function          // "current scope is the program scope"
 }
 
 func buildCtxFacts(w *World) (*ctxFacts, error) {
@@ -110,6 +111,55 @@ func buildCtxFacts(w *World) (*ctxFacts, error) {
 			}
 		}
 	}
+	// a method that returns a changed clone of its receiver (enter a nested scope: clone, then
+	// update the clone) is itself a way of cloning, not a way of changing the receiver
+	if cf.clone != nil {
+		for fn := range cf.mutators {
+			res := fn.Signature.Results()
+			if res.Len() != 1 || !types.Identical(res.At(0).Type(), cf.ctxType) {
+				continue
+			}
+			onClone := func(o map[string]bool) bool {
+				return len(o) > 0 && !o["param"] && !o["other"] && !o["captured"]
+			}
+			good := true
+			for _, b := range fn.Blocks {
+				if ret, ok := b.Instrs[len(b.Instrs)-1].(*ssa.Return); ok && len(ret.Results) == 1 {
+					if !onClone(cf.ctxOrigin(ret.Results[0], map[ssa.Value]bool{})) {
+						good = false
+					}
+				}
+			}
+			for _, m := range cf.mutations(fn) {
+				base := m.ctx
+				var o map[string]bool
+				if al, ok := base.(*ssa.Alloc); ok {
+					o = map[string]bool{}
+					for _, rr := range *al.Referrers() {
+						if st, ok := rr.(*ssa.Store); ok && st.Addr == ssa.Value(al) {
+							for k := range cf.ctxOrigin(st.Val, map[ssa.Value]bool{}) {
+								o[k] = true
+							}
+						}
+					}
+				} else {
+					o = cf.ctxOrigin(base, map[ssa.Value]bool{})
+				}
+				if !onClone(o) {
+					good = false
+				}
+			}
+			if good {
+				if cf.cloneLike == nil {
+					cf.cloneLike = map[*ssa.Function]bool{}
+				}
+				cf.cloneLike[fn] = true
+			}
+		}
+		for fn := range cf.cloneLike {
+			delete(cf.mutators, fn)
+		}
+	}
 	// a method that hands on what another lookup returned (findVariable → lookupVariable) is a lookup too
 	for changed := true; changed; {
 		changed = false
@@ -159,7 +209,7 @@ func (cf *ctxFacts) ctxOrigin(v ssa.Value, seen map[ssa.Value]bool) map[string]b
 	case *ssa.Call:
 		callee := x.Call.StaticCallee()
 		switch {
-		case callee == cf.clone:
+		case callee == cf.clone || callee != nil && cf.cloneLike[callee]:
 			out["clone"] = true
 		case callee != nil && types.Identical(callee.Signature.Results().At(0).Type(), cf.ctxType) && callee.Signature.Recv() == nil:
 			out["fresh"] = true
@@ -890,10 +940,77 @@ func scopeConstsIn(fn *ssa.Function) []string {
 				if c, ok := (*o).(*ssa.Const); ok && c.Value != nil && c.Value.Kind() == constant.String && isNamed(c.Type(), "scope") {
 					out = append(out, constant.StringVal(c.Value))
 				}
+				// a package-level list of scopes (var loopScopes = []scope{…}) read here
+				if g, ok := (*o).(*ssa.Global); ok {
+					out = append(out, globalScopeList(g)...)
+				}
 			}
 		}
 	}
 	return uniq(out)
+}
+
+// globalScopeList: the scope constants a package-level variable is initialised with (a list
+// literal), provided nothing but the initialiser writes the variable.
+func globalScopeList(g *ssa.Global) []string {
+	pt, ok := g.Type().Underlying().(*types.Pointer)
+	if !ok {
+		return nil
+	}
+	sl, ok := pt.Elem().Underlying().(*types.Slice)
+	if !ok || !isNamed(sl.Elem(), "scope") || g.Pkg == nil {
+		return nil
+	}
+	init := g.Pkg.Func("init")
+	if init == nil {
+		return nil
+	}
+	for _, m := range g.Pkg.Members {
+		fn, ok := m.(*ssa.Function)
+		if !ok || fn == init {
+			continue
+		}
+		for _, b := range fn.Blocks {
+			for _, ins := range b.Instrs {
+				if st, ok := ins.(*ssa.Store); ok && st.Addr == ssa.Value(g) {
+					return nil // assigned at run time
+				}
+			}
+		}
+	}
+	var out []string
+	for _, b := range init.Blocks {
+		for _, ins := range b.Instrs {
+			st, ok := ins.(*ssa.Store)
+			if !ok || st.Addr != ssa.Value(g) {
+				continue
+			}
+			slc, ok := st.Val.(*ssa.Slice)
+			if !ok {
+				return nil
+			}
+			al, ok := slc.X.(*ssa.Alloc)
+			if !ok {
+				return nil
+			}
+			for _, ref := range *al.Referrers() {
+				ia, ok := ref.(*ssa.IndexAddr)
+				if !ok {
+					continue
+				}
+				for _, r2 := range *ia.Referrers() {
+					if s2, ok := r2.(*ssa.Store); ok && s2.Addr == ssa.Value(ia) {
+						c, ok := s2.Val.(*ssa.Const)
+						if !ok || c.Value == nil || c.Value.Kind() != constant.String {
+							return nil
+						}
+						out = append(out, constant.StringVal(c.Value))
+					}
+				}
+			}
+		}
+	}
+	return out
 }
 
 func c07Place(w *World, cf *ctxFacts, r *Result) {
@@ -1023,7 +1140,7 @@ func c07Place(w *World, cf *ctxFacts, r *Result) {
 		tagOf, _ := TagMap(w)
 		retTag := tagOf["Return"]
 		has := false
-		for _, a := range fn.AnonFuncs {
+		for _, a := range blockCallbacksOf(fn) {
 			for _, b := range a.Blocks {
 				for _, ins := range b.Instrs {
 					if bo, ok := ins.(*ssa.BinOp); ok && (bo.Op == token.NEQ || bo.Op == token.EQL) {
@@ -2692,8 +2809,73 @@ func firstRuneOfParam(v ssa.Value, fn *ssa.Function) bool {
 // finalReturnEscapes: in the block callbacks of fn, is a success result reachable when the
 // function has results and the body is finished, without the edge on which the last
 // statement's tag equals RETURN?
-func finalReturnEscapes(fn *ssa.Function, retTag string) string {
+// blockCallbacksOf: the functions fn hands over as end-of-block callbacks (func([]Statement,
+// bool) error): closures written in fn, or closures made by a function fn calls for it.
+func blockCallbacksOf(fn *ssa.Function) []*ssa.Function {
+	isCb := func(t types.Type) bool {
+		sig, ok := t.Underlying().(*types.Signature)
+		if !ok || sig.Params().Len() != 2 || sig.Results().Len() != 1 || !isErrorType(sig.Results().At(0).Type()) {
+			return false
+		}
+		sl, ok := sig.Params().At(0).Type().Underlying().(*types.Slice)
+		return ok && namedName(sl.Elem()) == "Statement" && isBool(sig.Params().At(1).Type())
+	}
+	seen := map[*ssa.Function]bool{}
+	var out []*ssa.Function
+	add := func(f *ssa.Function) {
+		if f != nil && !seen[f] {
+			seen[f] = true
+			out = append(out, f)
+		}
+	}
+	var resolve func(v ssa.Value, d int)
+	resolve = func(v ssa.Value, d int) {
+		if d > 3 {
+			return
+		}
+		switch x := v.(type) {
+		case *ssa.MakeClosure:
+			f, _ := x.Fn.(*ssa.Function)
+			add(f)
+		case *ssa.Function:
+			add(x)
+		case *ssa.ChangeType:
+			resolve(x.X, d+1)
+		case *ssa.Call:
+			if callee := x.Call.StaticCallee(); callee != nil && callee.Blocks != nil {
+				for _, b := range callee.Blocks {
+					if ret, ok := b.Instrs[len(b.Instrs)-1].(*ssa.Return); ok && len(ret.Results) == 1 {
+						resolve(ret.Results[0], d+1)
+					}
+				}
+			}
+		case *ssa.Phi:
+			for _, e := range x.Edges {
+				resolve(e, d+1)
+			}
+		}
+	}
+	for _, b := range fn.Blocks {
+		for _, ins := range b.Instrs {
+			c, ok := ins.(*ssa.Call)
+			if !ok {
+				continue
+			}
+			for _, a := range c.Call.Args {
+				if isCb(a.Type()) {
+					resolve(a, 0)
+				}
+			}
+		}
+	}
 	for _, a := range fn.AnonFuncs {
+		add(a)
+	}
+	return out
+}
+
+func finalReturnEscapes(fn *ssa.Function, retTag string) string {
+	for _, a := range blockCallbacksOf(fn) {
 		cut := map[[2]*ssa.BasicBlock]bool{}
 		tested := false
 		for _, b := range a.Blocks {
@@ -2709,6 +2891,27 @@ func finalReturnEscapes(fn *ssa.Function, retTag string) string {
 			case *ssa.Parameter:
 				if isBool(x.Type()) {
 					cut[[2]*ssa.BasicBlock{b, f}] = true // not the finished body
+				}
+			case *ssa.Phi:
+				// ok := last != nil && last.StatementType() == RETURN, tested later
+				isConj := false
+				for _, e := range x.Edges {
+					if bo, ok := e.(*ssa.BinOp); ok && bo.Op == token.EQL {
+						for _, side := range []ssa.Value{bo.X, bo.Y} {
+							if k, ok := side.(*ssa.Const); ok && k.Value != nil && k.Value.Kind() == constant.String && constant.StringVal(k.Value) == retTag && isNamed(k.Type(), "StatementType") {
+								isConj = true
+							}
+						}
+						continue
+					}
+					if k, ok := e.(*ssa.Const); !ok || k.Value == nil || k.Value.Kind() != constant.Bool || constant.BoolVal(k.Value) {
+						isConj = false
+						break
+					}
+				}
+				if isConj {
+					tested = true
+					cut[[2]*ssa.BasicBlock{b, t}] = true
 				}
 			case *ssa.BinOp:
 				// len(results) > 0 / != 0 / == 0
